@@ -7,6 +7,7 @@ CHECKS = {
  "C01": ("exploration", "The spec contributes the input space (every explored class string concretised, leaf completions, block-edge runs, random/mutated documents) and the statement 'every call returns Ok or Err'; the harness observes panics, aborts/signals (crash-isolated workers, overflow checks and std UB precondition checks on), and heap growth across a repeated case.", "no abstract-state counterpart of memory safety: silent over-reads inside an allocation are out of reach", T + "spec-generated inputs replayed with crash/panic/leak observation", "5 C01"),
  "C02": ("model_checking", "TLC checks operational PDA == declarative RFC 8259 grammar (strict and validate-and-skip machines) for every class string up to the bound; every explored text is replayed, concretised, into 25 entry points; recorded random/mutated documents are validated by TLC against the byte-level machine.", "bounded: class strings <= 8 (quick) / 9 (thorough), nesting <= 3 in the exhaustive model; trusts TLC, the class table exported from the spec, and the concretiser", T + "exhaustive enumeration, spec->impl replay, impl->spec trace validation", "5 C02"),
  "C03": ("model_checking", "Denotes(text) from the spec's payload layer vs a walk of the returned Value through the public read API: every accepted explored text on the in-place, embedded, stream, raw-number and lossy paths (S->I), recorded documents with TLC evaluating Denotes(bytes) incl. exact correctly-rounded floats (I->S).", "floats in S->I compared by classification only (exactness via I->S and C07)", T + "spec->impl replay of denoted values + trace validation", "5 C03"),
+ "C09": ("model_checking", "Every decoder family (in-place, copying, borrowing, key, map-key, skip-only) x {strict, lossy} on literals swept over special character x position 0..130 x length 0..200 x start offset 0..64 x what follows, and on the \\uXXXX / surrogate-pair table (exhaustive over all 1,114,112 code points in the thorough tier): TLC decodes each recorded literal with the payload layer of JsonText (escapes, UTF-8, surrogate pairing, U+FFFD repair) and compares text, Ok/Err and borrowed-ness.", "quick tier samples the grid (6000 literals) and every 53rd code point; lossy repair of invalid UTF-8 is specified as from_utf8_lossy on the document bytes", T + "trace validation of recorded decodes against the spec decoder", "5 C09"),
  "C10": ("model_checking", "Recorded get/get_unchecked/carrier/pointer calls validated by TLC: Ok/Err, span by byte offset and error category must equal Lookup(Denotes(bytes), path), first member wins; block-edge stress documents force the bitmap skippers across 32/64-byte edges.", "sampled documents (generated, mutated, stress); spans compared by content when a carrier inlines a copy", T + "trace validation of recorded calls against Lookup on the denoted value", "5 C10"),
  "C11": ("model_checking", "Recorded get_many / get_many_unchecked calls validated by TLC against one Lookup per path: slot order, filled slot = span, empty slot = unknown key, all filled when all resolve.", "duplicate-free documents as the property states; path sets are shape-consistent", T + "trace validation", "5 C11"),
  "C12": ("model_checking", "Recorded iterator and stream runs validated by TLC: items = Members(first value) then end; on malformed input the members completed before the lax machine rejects, exactly one error, then nothing (latch).", "byte carriers validate UTF-8 of the whole input first (modelled as Utf8Gate)", T + "trace validation", "5 C12"),
